@@ -227,7 +227,7 @@ def forbidden_tokens() -> list[str]:
 # further theorem files audited together with a property (shared results the property relies on)
 EXTRA_MODULES = {
     "C01": ["Reach"],
-    "C02": ["Reach", "C02Sem"],
+    "C02": ["Reach", "C02Sem", "C02Amp"],
     "C09": ["Reach"],
 }
 
